@@ -234,13 +234,35 @@ Proof.
   rewrite forallb_map. apply forallb_ext. intros c. apply class_scalar_canon.
 Qed.
 
+(* the writer's check (check_fields) does not depend on the order either *)
+Lemma meth_checked_canon m : meth_checked (canon_meth m) = meth_checked m.
+Proof.
+  unfold meth_checked, canon_meth. cbn [m_desc m_names m_params]. rewrite forallb_isort. reflexivity.
+Qed.
+
+Lemma class_checked_canon c : class_checked (canon_class c) = class_checked c.
+Proof.
+  unfold class_checked, canon_class. cbn [c_names c_fields c_methods].
+  rewrite !forallb_isort. f_equal.
+  rewrite forallb_map. apply forallb_ext. intros m. apply meth_checked_canon.
+Qed.
+
+Lemma fields_checked_canon M : fields_checked (canon M) = fields_checked M.
+Proof.
+  unfold fields_checked, canon. cbn [ms_ns ms_classes]. rewrite forallb_isort. f_equal.
+  rewrite forallb_map. apply forallb_ext. intros c. apply class_checked_canon.
+Qed.
+
+Lemma writable_canon M : writable (canon M) = writable M.
+Proof. unfold writable. rewrite fields_checked_canon, all_names_scalar_canon. reflexivity. Qed.
+
 (* the writer without the sorting *)
 Definition write_o (M : mappings) : res text :=
-  if all_names_scalar M then Ok (unlines (write_lines_o M)) else Err.
+  if writable M then Ok (unlines (write_lines_o M)) else Err.
 
 Theorem write_factor M : write M = write_o (canon M).
 Proof.
-  unfold write, write_o. rewrite all_names_scalar_canon, write_lines_canon. reflexivity.
+  unfold write, write_o. rewrite writable_canon, write_lines_canon. reflexivity.
 Qed.
 
 (* ------------------------------------------------------------------------------------------ *)
@@ -368,6 +390,35 @@ Proof.
     apply andb_true_iff in Hps. destruct Hps as [_ Hps]. apply (names_textual_scalar _ _ Hps).
 Qed.
 
+Lemma names_textual_checked valid l : names_textual valid l = true -> names_checked l = true.
+Proof.
+  unfold names_textual, names_checked. rewrite !forallb_forall. intros H o Ho. specialize (H o Ho).
+  destruct o as [s|]; [|reflexivity]. cbn [cell_str]. unfold name_ok in H.
+  apply andb_true_iff in H. destruct H as [H _]. apply andb_true_iff in H. tauto.
+Qed.
+
+Lemma textual_checked M : textual M = true -> fields_checked M = true.
+Proof.
+  unfold textual, fields_checked. intros H. apply andb_true_iff in H. destruct H as [Hns H].
+  rewrite Hns. cbn [andb].
+  rewrite forallb_forall in *. intros c Hc. specialize (H c Hc).
+  unfold textual_class in H. apply andb_true_iff in H. destruct H as [H Hms].
+  apply andb_true_iff in H. destruct H as [Hn Hfs].
+  unfold class_checked. rewrite (names_textual_checked _ _ Hn). cbn [andb].
+  apply andb_true_iff. split.
+  - rewrite forallb_forall in *. intros f Hf. specialize (Hfs f Hf). unfold textual_field in Hfs.
+    apply andb_true_iff in Hfs. destruct Hfs as [Hd Hfs]. unfold field_checked.
+    rewrite Hd, (names_textual_checked _ _ Hfs). reflexivity.
+  - rewrite forallb_forall in *. intros m Hm. specialize (Hms m Hm). unfold textual_meth in Hms.
+    apply andb_true_iff in Hms. destruct Hms as [Hms Hps]. apply andb_true_iff in Hms. destruct Hms as [Hd Hmn].
+    unfold meth_checked. rewrite Hd, (names_textual_checked _ _ Hmn). cbn [andb].
+    rewrite forallb_forall in *. intros p Hp. specialize (Hps p Hp). unfold textual_param in Hps.
+    apply andb_true_iff in Hps. destruct Hps as [_ Hps]. apply (names_textual_checked _ _ Hps).
+Qed.
+
+Lemma textual_writable M : textual M = true -> writable M = true.
+Proof. intros H. unfold writable. rewrite (textual_checked M H), (textual_scalar M H). reflexivity. Qed.
+
 (* Th 1: reading what was written gives the canonical representative of the mapping set *)
 Theorem read_write M :
   wf M = true -> textual M = true ->
@@ -375,7 +426,7 @@ Theorem read_write M :
 Proof.
   intros Hwf Htx. exists (unlines (write_lines_o (canon M))). split.
   - rewrite write_factor. unfold write_o.
-    rewrite (textual_scalar (canon M)) by (rewrite textual_canon; exact Htx). reflexivity.
+    rewrite (textual_writable (canon M)) by (rewrite textual_canon; exact Htx). reflexivity.
   - change (length (ms_ns M)) with (length (ms_ns (canon M))).
     apply read_write_ordered; [apply wf_canon; exact Hwf|rewrite textual_canon; exact Htx].
 Qed.
@@ -383,7 +434,7 @@ Qed.
 (* the canonical representative is the same content: a permutation at every level *)
 Theorem write_total M : textual M = true -> exists t, write M = Ok t.
 Proof.
-  intros Htx. unfold write. rewrite (textual_scalar M Htx). eexists. reflexivity.
+  intros Htx. unfold write. rewrite (textual_writable M Htx). eexists. reflexivity.
 Qed.
 
 (* Th 3: writing is a fixed point of read-then-write *)
